@@ -45,7 +45,7 @@ def run(ctx):
     _adjusted(ctx)
     _source(ctx, prog)
     _balance(ctx, prog)
-    _signs(ctx)
+    _signs(ctx, prog)
     _worse(ctx)
 
 
@@ -170,7 +170,10 @@ def _sign_and_core(e, core_atom):
     return H.linform(e, core_atom)
 
 
-def _signs(ctx):
+INLINE = r"^gmsol_model::pool::delta::"   # private helpers of the module may hold the sign-selecting branch
+
+
+def _signs(ctx, prog):
     # same side
     f = ctx.fn(PD + "price_impact_for_same_side_rebalance")
     if f is not None:
@@ -188,7 +191,7 @@ def _signs(ctx):
             return None
         cases, bad = 0, []
         try:
-            for ranks, _b, sel in H.finite_eval(f, atomize, ["next", "initial"], ignore=r"trybranch"):
+            for ranks, _b, sel in H.finite_eval(f, atomize, ["next", "initial"], ignore=r"trybranch", prog=prog, inline=INLINE):
                 cases += 1
                 sel = [p for p in sel if H.retkind(p.ret) == "value"]
                 improving = ranks["next"] < ranks["initial"]
@@ -222,7 +225,7 @@ def _signs(ctx):
             return None
         cases, bad = 0, []
         try:
-            for ranks, _b, sel in H.finite_eval(f, atomize, ["P", "N"], ignore=r"trybranch"):
+            for ranks, _b, sel in H.finite_eval(f, atomize, ["P", "N"], ignore=r"trybranch", prog=prog, inline=INLINE):
                 cases += 1
                 sel = [p for p in sel if H.retkind(p.ret) == "value"]
                 if not sel:
